@@ -56,6 +56,11 @@ def run(chk):
             progcheck.run_plans(sub, rd, plans, OBS, opts={"no_compute": True, "source": spec, "io_mode": "lazy"},
                                 selftest=_corrupt if first else None, accept_verdict=accept)
             first = False
+        # the same sources behind a structured dtype (one field, the program works on the field): meta of record sources
+        sub = progcheck.SubCheck(chk, "rec-structured")
+        progcheck.run_plans(sub, rd, [("d1-1d", 1, 6)] if quick else [("d1-1d-wide", 2, 1), ("d1-2d", 2, 2)], OBS,
+                            opts={"no_compute": True, "source": {"kind": "rec", "view": "structured"}, "io_mode": "lazy"},
+                            accept_verdict=accept)
         # user block functions: with dtype, and with meta inference
         mb = ([("d1-mapblocks", 1, 2), ("d2-above-mapblocks", 1, 12), ("d2-below-mapblocks", 1, 12)] if quick
               else [("d1-mapblocks", 8, 1), ("d2-above-mapblocks", 2, 1), ("d2-below-mapblocks", 2, 1)])
@@ -64,7 +69,7 @@ def run(chk):
             progcheck.run_plans(sub, rd, mb, OBS, opts={"no_compute": True, "io_mode": "lazy", "last_only": False, "infer_meta": infer},
                                 accept_verdict=accept)
         chk.cov["exhaustive"] = True
-        chk.cov["rule"] = ("every collection of the enumerated behaviours (corpora in parts) over 4 kinds of recording non-NumPy sources, and "
+        chk.cov["rule"] = ("every collection of the enumerated behaviours (corpora in parts) over 4 kinds of recording non-NumPy sources (and, for the 1-D / 2-D depth-1 corpora, the same data behind a structured dtype), and "
                            "every behaviour with a MapBlocks action (block function logged) with and without dtype; one 'io' observation each: "
                            "the reads / user calls of construction, inspection (15 accessors), optimize / simplify, graph building, execution")
         chk.assumptions += ["empty selections (x[:0]-style meta probes) and calls on empty blocks are allowed in any phase, as the property says"]
